@@ -431,4 +431,24 @@ theorem C09.bare_for_loops :
     ((loops.zip Spec.classifiedLoops).filter (fun p => p.1.kind == "for" && p.1.over == "; ; ")).map (·.2.cls) =
       [LoopClass.polls, LoopClass.boundedByConstant, LoopClass.boundedByFrames] := by decide
 
+/-- what the bound of the two `boundedByGuardedAllocation` loops rests on, in source order inside the loop's own
+statement list: the early returns and the MulLen / MakeObjectSlice calls that dominate the loop.
+* `array * count`: the count is non-negative, `n = len * count` does not overflow (MulLen), `n = 0` returns BEFORE
+  the loop (an empty operand times a huge count would otherwise loop `count` times appending nothing, without ever
+  polling the context), and `n` objects passed the guard — so count ≤ n ≤ budget / 16;
+* `left : right`: `lg = right - left` is non-negative and `lg` objects passed the guard. -/
+def Spec.guardedLoopGuards : List (String × List String) := [
+  ("eval/eval.go | State.evalArrayInfixExpression | range rightVal",
+    ["if !ok return", "if rightVal < 0 return", "object.MulLen(len(leftVal), rightVal)", "if !ok return",
+     "if n == 0 return", "object.MakeObjectSlice(n)"]),
+  ("eval/eval.go | State.evalIntegerInfixExpression | for i := leftVal; i < rightVal; i++",
+    ["if lg < 0 return", "object.MakeObjectSlice(int(lg))"]) ]
+
+/-- **C09 (time part, 3)**: the loops classified `boundedByGuardedAllocation` are dominated by exactly the
+recorded early returns and guard calls, in that order (regenerated from the source): moving, dropping or
+rewording the `n == 0` early return, the MulLen overflow test or the guarded allocation breaks this obligation. -/
+theorem C09.guarded_loops_guards :
+    ((loops.zip Spec.classifiedLoops).filter (fun p => p.2.cls == LoopClass.boundedByGuardedAllocation)).map
+      (fun p => (p.1.site, p.1.guards)) = Spec.guardedLoopGuards := by decide
+
 end Grol.Generated.LoopFacts
